@@ -49,6 +49,27 @@ type XA struct {
 }
 
 func NewXS(x int, y string) XS { return XS{X: x, y: y} }
+
+// hooks over imported operands: Hook<dst P|V><src P|V><E error|N none><X extra args|N none>
+func HookPPEX(d *XS, s *XS, a0 int, a1 string) error { return nil }
+func HookPPEN(d *XS, s *XS) error { return nil }
+func HookPPNX(d *XS, s *XS, a0 int, a1 string) {}
+func HookPPNN(d *XS, s *XS) {}
+func HookPVEX(d *XS, s XS, a0 int, a1 string) error { return nil }
+func HookPVEN(d *XS, s XS) error { return nil }
+func HookPVNX(d *XS, s XS, a0 int, a1 string) {}
+func HookPVNN(d *XS, s XS) {}
+func HookVPEX(d XS, s *XS, a0 int, a1 string) error { return nil }
+func HookVPEN(d XS, s *XS) error { return nil }
+func HookVPNX(d XS, s *XS, a0 int, a1 string) {}
+func HookVPNN(d XS, s *XS) {}
+func HookVVEX(d XS, s XS, a0 int, a1 string) error { return nil }
+func HookVVEN(d XS, s XS) error { return nil }
+func HookVVNX(d XS, s XS, a0 int, a1 string) {}
+func HookVVNN(d XS, s XS) {}
+func hookPP(d *XS, s *XS) {}
+
+var _ = hookPP
 func (s XS) Y() string         { return s.y }
 `
 
